@@ -25,4 +25,5 @@ def run(F, tier):
     rep.sample({"assembly": r2.get("sequence")})
     accept.u6(rep, F, "headers")
     accept.u6(rep, F, "blocks")
+    accept.u7(rep, F, "headers")
     return rep
